@@ -378,17 +378,18 @@ func c05Case(w *core.Worker, i int) {
 			t.Rows = keep
 			steps = append(steps, step{fmt.Sprintf("DELETE FROM %s WHERE %s;", tn, p.SQL("")), cnt, cnt > 0, nil})
 		case 8: // multi-table DELETE
+			// a target row matched by several joined rows is deleted — and counted — once
 			a, b := tabs["t"], tabs["u"]
-			if !uniqueIDs(b) {
-				continue
-			}
 			var keep [][]*string
 			cnt := 0
 			ai, bi := a.col("id"), b.col("id")
+			wide := r.Bool()
 			for _, row := range a.Rows {
 				del := false
+				x, okx := cellRV(row[ai]).asIntStrict()
 				for _, ur := range b.Rows {
-					if row[ai] != nil && ur[bi] != nil && *row[ai] == *ur[bi] {
+					y, oky := cellRV(ur[bi]).asIntStrict()
+					if okx && oky && (x == y || (wide && x == y+1)) {
 						del = true
 					}
 				}
@@ -399,7 +400,11 @@ func c05Case(w *core.Worker, i int) {
 				}
 			}
 			a.Rows = keep
-			steps = append(steps, step{"DELETE t FROM t JOIN u ON t.id = u.id;", cnt, cnt > 0, nil})
+			if wide {
+				steps = append(steps, step{"DELETE t FROM t JOIN u ON t.id = u.id OR t.id = u.id + 1;", cnt, cnt > 0, nil})
+			} else {
+				steps = append(steps, step{"DELETE t FROM t JOIN u ON t.id = u.id;", cnt, cnt > 0, nil})
+			}
 		case 9: // REPLACE USING (id), or USING a text column that may hold duplicates (every matching row is updated)
 			oc, idc := otherCol(r, t), t.col("id")
 			if oc < 0 {
